@@ -96,7 +96,7 @@ static int class_of(const struct ref_line *r)
 }
 struct case_budget chk_budget(const char *tier)
 {
-        struct case_budget b = { 0, strcmp(tier, "thorough") == 0 ? 1200000 : 60000 };
+        struct case_budget b = { 0, strcmp(tier, "thorough") == 0 ? 8000000 : 200000 };
         return b;
 }
 void chk_run_case(uint64_t seed, long c, bool is_sweep)
